@@ -562,6 +562,21 @@ class RecCtx(CtxLog):
         return self.violations[0][0] if self.violations else None
 
 
+def recheck_via_replay(replay_fn):
+    """a `recheck` for the properties whose `replay` already executes the stored input again (exit status 1 = it fails)"""
+    def recheck(r):
+        import contextlib
+        import io
+        buf = io.StringIO()
+        with contextlib.redirect_stdout(buf):
+            rc = replay_fn({'what': '', 'replay': r, 'seed': 0, 'tier': 'quick'})
+        if not rc:
+            return None
+        lines = [l for l in buf.getvalue().splitlines() if l.strip()]
+        return 'the stored input fails again: %s' % (lines[-1][:300] if lines else '')
+    return recheck
+
+
 def run_regressions(ctx, prop, recheck):
     """the regression corpus: stored failing inputs of past (seeded or repaired) defects, each executed again through the property's
     own `recheck`; runs first"""
